@@ -180,6 +180,17 @@ def gen_panel(rng, tier):
         if rng.random() < 0.6:
             sp = rng.choice(case["pops"])
             case["per_pop"] = {q: (k if q == sp else n + 2) for q in case["pops"]}
+            if rng.random() < 0.5:
+                # a pulse model: that population contributes nothing to the first generation and enters later (or never)
+                from fractions import Fraction
+
+                i, l = case["pops"].index(sp), case["lines"][0]
+                fr = [Fraction(x) for x in l[2:]]
+                o = (i + 1) % len(fr)
+                fr[o] += fr[i]
+                fr[i] = Fraction(0)
+                l[2:] = [(f"{float(x):.3f}".rstrip("0").rstrip(".") if x else "0") for x in fr]
+                case["pulse"] = True
         else:
             case["per_pop"] = k
         case["margin"] = k - n
@@ -270,7 +281,7 @@ CHECK = Check(
             setup=lambda: _c20("setup")(),
             teardown=lambda x: _c20("teardown")(x),
             nontrivial=lambda c, o: C.jdump(c),
-            describe=lambda c, o: [f"smallest-population-minus-nsamples={c['margin']}", "one-population-short" if isinstance(c["per_pop"], dict) else "all-populations-equal", "route=" + c.get("route", "api")],
+            describe=lambda c, o: [f"smallest-population-minus-nsamples={c['margin']}", "one-population-short" if isinstance(c["per_pop"], dict) else "all-populations-equal", "route=" + c.get("route", "api")] + (["short-population-absent-from-first-generation"] if c.get("pulse") else []),
             rule="--no_replacement runs whose reference panel holds exactly n-1, n or n+1 samples per model population (n = simulated samples): half of the cases through the Python entry points, half through the `haptools simgenotype --no_replacement` command line; n-1 must be refused before anything is simulated, n and n+1 accepted (a later 'No available sample' is an error, never reuse)",
         ),
     ],
